@@ -26,7 +26,8 @@ RULE = ("one evaluation = one seeded call history (<= 120 calls, cache capacity 
 STATE_MEASURE = "distinct (function, collision class of the argument pair, cache occupancy >= capacity?, evicted-then-recalled?) tuples"
 PROBES = ["same_bytes_other_dtype", "same_bytes_other_length", "strided_argument", "keyword_vs_positional", "cache_full_eviction",
           "evicted_then_recalled", "result_mutated", "result_readonly", "file_modified_same_size", "file_modified_other_size",
-          "contour_evicted_recomputed", "child_scalar_read", "basin_proxy_read", "h5_scalar_read", "interleaved_functions", "layout_or_shape_variant_2d", "first_access_with_dtype"]
+          "contour_evicted_recomputed", "child_scalar_read", "basin_proxy_read", "h5_scalar_read", "interleaved_functions", "layout_or_shape_variant_2d", "first_access_with_dtype",
+          "refilter_same_count", "grandchild_read_after_refilter"]
 COMPONENTS = {"real": ["dclab.cached.Cache", "dclab.kde_methods (kde_histogram, kde_gauss, kde_multivariate)", "dclab.downsampling.downsample_grid (compiled)",
                        "dclab.util.hashfile / file_monitoring_lru_cache", "dclab.features.contour.LazyContourList",
                        "H5ScalarEvent / ChildScalar / BasinProxyFeature caches", "real files and os.stat on tmpfs"],
@@ -167,8 +168,10 @@ class World:
             ds.filter.manual[:] = self.sel
             ds.apply_filter()
             child = dclab.new_dataset(ds)
+            grand = dclab.new_dataset(child)
             ref = dclab.new_dataset(pr)
-            self.ds_objs = {"file": ds, "child": child, "basin": ref}
+            self.ds_objs = {"file": ds, "child": child, "grandchild": grand, "basin": ref}
+            self.refiltered = False
         return self.ds_objs
 
     # ---------------- generation ----------------
@@ -197,7 +200,10 @@ class World:
             return {"k": "hf_call", "f": r.randrange(3), "blocksize": r.choice([65536, 64, 1000]), "count": r.choice([0, 0, 1, 3])}
         if kind == "hf_modify":
             return {"k": "hf_modify", "f": r.randrange(3), "how": r.choice(["same_size", "same_size", "grow", "shrink"]), "dseed": r.randrange(1 << 20)}
-        return {"k": "ds_read", "which": r.choice(["file", "child", "basin"]), "feat": r.choice(["deform", "area_um", "bright_avg"]),
+        if w in ("dataset", "mixed") and self.ds_objs is not None and r.random() < 0.2:
+            # the root selects other events (equally many / any); the hierarchy is refreshed from the youngest
+            return {"k": "ds_refilter", "mode": r.choice(["swap", "swap", "random"]), "dseed": r.randrange(1 << 20)}
+        return {"k": "ds_read", "which": r.choice(["file", "child", "child", "grandchild", "grandchild", "basin"]), "feat": r.choice(["deform", "area_um", "bright_avg"]),
                 "how": r.choice(["all", "all", "idx", "slice", "asarray", "asarray_f32", "asarray_int"]), "i": r.randrange(1 << 16),
                 "fresh": r.random() < 0.3}
 
@@ -418,9 +424,11 @@ class World:
         if which == "file":
             truth = self.truth[f]
             ctx.probe("h5_scalar_read")
-        elif which == "child":
+        elif which in ("child", "grandchild"):
             truth = self.truth[f][self.sel]
             ctx.probe("child_scalar_read")
+            if which == "grandchild" and getattr(self, "refiltered", False):
+                ctx.probe("grandchild_read_after_refilter")
         else:
             truth = self.truth[f][self.bmap.astype(int)]
             if f != "deform":
@@ -449,10 +457,37 @@ class World:
         ctx.state_ops += 1
         ctx.state("ds_" + which, op["how"], False, bool(getattr(self, "mutated", False)))
         if not np.array_equal(np.asarray(got), np.asarray(exp)):
-            ctx.violation("C17.dataset.value", f"{which} dataset: {f} ({op['how']}) differs from the stored data after earlier results were modified in place",
+            ctx.violation("C17.dataset.value", f"{which} dataset: {f} ({op['how']}) differs from the stored data of the selected events (after earlier results were "
+                          f"modified in place: {bool(getattr(self, 'mutated', False))}, after the root selected other events: {bool(getattr(self, 'refiltered', False))})",
                           sig={"which": which, "mutated_before": bool(getattr(self, "mutated", False))})
         self.last_results = [got] if isinstance(got, np.ndarray) else []
         ctx.log("c", f"ds_read {which} {f} {op['how']}", seeds.short_hash(np.asarray(got)))
+
+    def do_ds_refilter(self, op):
+        ctx = self.ctx
+        if self.ds_objs is None:
+            return
+        dss = self.ds_objs
+        rs = seeds.np_rng(op["dseed"], "refilter")
+        sel = self.sel.copy()
+        on, off = np.flatnonzero(sel), np.flatnonzero(~sel)
+        if op["mode"] == "swap" and len(on) and len(off):
+            sel[rs.choice(on)] = False
+            sel[rs.choice(off)] = True
+            ctx.probe("refilter_same_count")
+        else:
+            sel = rs.random(len(sel)) < 0.6
+            if not sel.any():
+                sel[0] = True
+        self.sel = sel
+        with warnings.catch_warnings():
+            warnings.simplefilter("ignore")
+            with ctx.sut("C17.dataset.refilter"):
+                dss["file"].filter.manual[:] = sel
+                dss["grandchild"].rejuvenate()
+        self.refiltered = True
+        self.last_results = []
+        ctx.log("c", f"refilter {op['mode']}", seeds.short_hash(sel))
 
     def do_mutate(self, op):
         """the mutator actor writes into the arrays returned by the most recent call"""
